@@ -15,6 +15,7 @@ import (
 	"bufio"
 	"bytes"
 	"context"
+	"encoding/hex"
 	"fmt"
 	"net"
 	"os"
@@ -196,6 +197,10 @@ func TestVerifC11DTLSChild(t *testing.T) {
 		say("NOCONTROL")
 		return
 	}
+	mode := os.Getenv("VERIF_C11D_MODE") // "mitm": damaged handshakes only; "raw": stray datagrams only
+	if mode == "raw" {
+		start = rounds
+	}
 	var wg sync.WaitGroup
 	sem := make(chan struct{}, 16)
 	for round := start; round < rounds; round++ {
@@ -215,9 +220,22 @@ func TestVerifC11DTLSChild(t *testing.T) {
 		}(round)
 	}
 	wg.Wait()
+	// the listener gives a handshake 5 s (defaultAcceptTimeout): let the ones that were left hanging end,
+	// so that what they do at their end is not charged to the stray datagrams below
+	if start < rounds {
+		time.Sleep(defaultAcceptTimeout + 500*time.Millisecond)
+	}
 	say("MITM-DONE")
+	if mode == "mitm" {
+		raws = 0
+	}
 	// single datagrams from fresh sockets
 	r := vlib.NewRand("C11-dtls-raw")
+	// first the ones that have done damage before: a record of a content type that does not exist
+	// (in a record header that is otherwise in order), application data before any key exists
+	corpus := [][]byte{{0x1f, 0xfe, 0xfd, 0, 0, 0, 0, 0, 0, 0, 0, 0, 1, 0}, {0x17, 0xfe, 0xfd, 0, 0, 0, 0, 0, 0, 0, 0, 0, 1, 0},
+		append([]byte{0x1f}, hello[1:]...), {0x1f, 0xfe, 0xfd, 0, 0, 0, 0, 0, 0, 0, 0, 0, 0}, append([]byte{0x00}, hello[1:]...),
+		{0x14, 0xfe, 0xfd, 0, 0, 0, 0, 0, 0, 0, 0, 0, 1, 1}, {0x15, 0xfe, 0xfd, 0, 0, 0, 0, 0, 0, 0, 0, 0, 2, 2, 40}, {0x15, 0xfe, 0xfd, 0, 0, 0, 0, 0, 0, 0, 0, 0, 2, 1, 0}}
 	send := func(d []byte) {
 		c, err := net.DialUDP("udp", nil, server)
 		if err != nil {
@@ -229,12 +247,25 @@ func TestVerifC11DTLSChild(t *testing.T) {
 		}
 		c.Close()
 	}
+	rawStart, _ := strconv.Atoi(os.Getenv("VERIF_C11D_RAWSTART"))
+	var given [][]byte
+	if f := os.Getenv("VERIF_C11D_RAWFILE"); f != "" { // replay: these datagrams instead of generated ones
+		b, _ := os.ReadFile(f)
+		for _, l := range strings.Fields(string(b)) {
+			d, _ := hex.DecodeString(l)
+			given = append(given, d)
+		}
+		raws = len(given)
+	}
 	for i := 0; i < raws; i++ {
-		say("R%d", i)
 		var d []byte
 		switch {
-		case i <= len(hello): // the recorded ClientHello cut at every length
-			d = hello[:i]
+		case given != nil:
+			d = given[i]
+		case i < len(corpus):
+			d = corpus[i]
+		case i-len(corpus) <= len(hello): // the recorded ClientHello cut at every length
+			d = hello[:i-len(corpus)]
 		case i%3 == 0:
 			d = r.Bytes(r.Intn(120))
 		default: // the ClientHello with bytes bent, lengths included
@@ -246,12 +277,19 @@ func TestVerifC11DTLSChild(t *testing.T) {
 				d = append(d, r.Bytes(r.Intn(40))...)
 			}
 		}
+		if i < rawStart { // the draws are made all the same: datagram i does not depend on where a child starts
+			continue
+		}
+		say("R%d %s", i, hex.EncodeToString(d))
 		send(d)
-		if i%64 == 63 {
+		if i%16 == 15 {
 			time.Sleep(5 * time.Millisecond)
 		}
 	}
-	time.Sleep(300 * time.Millisecond)
+	// whatever the listener started for them is given the time of a handshake to end
+	if raws > 0 {
+		time.Sleep(defaultAcceptTimeout + 500*time.Millisecond)
+	}
 	say("RAW-DONE")
 	// and the listener still hears
 	alive := false
@@ -276,37 +314,75 @@ func TestVerifC11DTLS(t *testing.T) {
 	if o := os.Getenv("VERIF_OUT"); o != "" {
 		progPath = filepath.Join(o, "C11c.child-progress.txt")
 	}
-	start := 0
+	start, replayRounds := 0, false
 	if rp := vlib.Replay(); rp != "" { // dtls|<first round>: the rounds are functions of seed and number
 		b, _ := os.ReadFile(rp)
 		found := false
 		for _, l := range strings.Split(string(b), "\n") {
 			if p := strings.Split(l, "|"); len(p) >= 2 && p[0] == "dtls" {
 				start, _ = strconv.Atoi(p[1])
-				found = true
+				found, replayRounds = true, true
 			}
 		}
-		if !found {
+		if !found && !strings.Contains(string(b), "dtlsraw|") {
 			fmt.Println("replay (DTLS listener): not a DTLS case")
 			return
 		}
 	}
-	for attempt := 0; attempt < 6; attempt++ {
+	rawFile := ""
+	if rp := vlib.Replay(); rp != "" { // dtlsraw|<hex>,<hex>…: these datagrams; dtls|<round>: from that round on
+		b, _ := os.ReadFile(rp)
+		for _, l := range strings.Split(string(b), "\n") {
+			if p := strings.Split(l, "|"); len(p) >= 2 && p[0] == "dtlsraw" {
+				rawFile = filepath.Join(dir, "raw.txt")
+				_ = os.WriteFile(rawFile, []byte(strings.ReplaceAll(p[1], ",", "\n")), 0o644)
+				start = rounds
+				break
+			}
+		}
+	}
+	// the two kinds of input run against a listener each, in two processes side by side: what a handshake
+	// that was left hanging does when its 5 s are over is then never charged to a stray datagram
+	var both sync.WaitGroup
+	for _, mode := range []string{"mitm", "raw"} {
+		if (mode == "raw" && replayRounds) || (mode == "mitm" && rawFile != "") {
+			continue
+		}
+		both.Add(1)
+		go func(mode string, start int) {
+			defer both.Done()
+			c11SuperviseDTLS(t, out, mode, progPath+"."+mode, dir, start, rounds, raws, rawFile)
+		}(mode, start)
+	}
+	both.Wait()
+}
+
+func c11SuperviseDTLS(t *testing.T, out *vlib.Out, mode, progPath, dir string, start, rounds, raws int, rawFile string) {
+	rawStart := 0
+	crashes := 0
+	for attempt := 0; attempt < 12; attempt++ {
 		cmd := exec.Command(os.Args[0], "-test.run=^TestVerifC11DTLSChild$", "-test.timeout=20m")
-		cmd.Env = append(os.Environ(), "VERIF_C11D_PROGRESS="+progPath, "VERIF_C11D_START="+strconv.Itoa(start),
-			"VERIF_C11D_ROUNDS="+strconv.Itoa(rounds), "VERIF_C11D_RAW="+strconv.Itoa(raws), "VERIF_OUT="+dir)
+		cmd.Env = append(os.Environ(), "VERIF_C11D_MODE="+mode, "VERIF_C11D_PROGRESS="+progPath, "VERIF_C11D_START="+strconv.Itoa(start),
+			"VERIF_C11D_ROUNDS="+strconv.Itoa(rounds), "VERIF_C11D_RAW="+strconv.Itoa(raws), "VERIF_C11D_RAWSTART="+strconv.Itoa(rawStart),
+			"VERIF_C11D_RAWFILE="+rawFile, "VERIF_OUT="+dir, "GOTRACEBACK=all")
 		var stderr bytes.Buffer
 		cmd.Stderr, cmd.Stdout = &stderr, &stderr
 		err := cmd.Run()
 		prog, _ := os.ReadFile(progPath)
 		last, lastRaw, done, mitmDone := -1, -1, false, false
+		var recent []string
 		sc := bufio.NewScanner(bytes.NewReader(prog))
+		sc.Buffer(make([]byte, 1<<20), 1<<24)
 		for sc.Scan() {
 			l := sc.Text()
 			switch {
 			case strings.HasPrefix(l, "NOLISTEN"), strings.HasPrefix(l, "NOSOCKET"), l == "NOCONTROL":
+				if crashes > 0 {
+					continue
+				}
 				// a clause of the property that is not exercised must not look like a pass
-				t.Fatalf("the DTLS listener cannot be exercised here: %s\n%s", l, stderr.String())
+				t.Errorf("the DTLS listener cannot be exercised here: %s\n%s", l, stderr.String())
+				return
 			case strings.HasPrefix(l, "STUCK "):
 				out.OracleFail("C11:dtls-listener:accept-ignores-context", l, "dtls|"+strings.Fields(l)[1])
 			case l == "DEAF":
@@ -319,8 +395,16 @@ func TestVerifC11DTLS(t *testing.T) {
 			case l == "DONE":
 				done = true
 			case strings.HasPrefix(l, "R"):
-				lastRaw, _ = strconv.Atoi(l[1:])
+				f := strings.Fields(l[1:])
+				lastRaw, _ = strconv.Atoi(f[0])
+				if len(f) > 1 {
+					recent = append(recent, f[1])
+					if len(recent) > 24 {
+						recent = recent[1:]
+					}
+				}
 				out.Checked()
+				out.Count("dtls:stray-datagram")
 			default:
 				if k, e := strconv.Atoi(l); e == nil {
 					last = k
@@ -332,22 +416,63 @@ func TestVerifC11DTLS(t *testing.T) {
 			out.Count("dtls:child-completed")
 			return
 		}
+		crashes++
+		// the report: what, where, and on which side (the listener's goroutines, or the client the harness runs)
 		report := stderr.String()
-		msg, frame := "unknown", "unknown"
+		msg, frame, side := "unknown", "unknown", "unknown"
+		blocks := strings.Split(report, "\n\n")
 		for _, l := range strings.Split(report, "\n") {
-			if msg == "unknown" && (strings.HasPrefix(l, "panic: ") || strings.HasPrefix(l, "fatal error: ")) {
+			if strings.HasPrefix(l, "panic: ") || strings.HasPrefix(l, "fatal error: ") {
 				msg = l
+				break
 			}
-			if frame == "unknown" && strings.Contains(l, "(") && !strings.Contains(l, "zz_verif") && !strings.HasPrefix(l, "created by") {
-				if i := strings.Index(l, "refraction-networking/conjure/pkg/"); i >= 0 {
+		}
+		for bi, b := range blocks {
+			if !strings.Contains(b, "[running]") {
+				continue
+			}
+			for _, l := range strings.Split(b, "\n") {
+				if strings.HasPrefix(l, "goroutine ") || strings.HasPrefix(l, "\t") || strings.HasPrefix(l, "panic") || strings.HasPrefix(l, "[signal") || strings.HasPrefix(l, "runtime.") || strings.HasPrefix(l, "created by") || !strings.Contains(l, "(") {
+					continue
+				}
+				frame = l
+				if i := strings.Index(l, "refraction-networking/conjure/"); i >= 0 {
 					frame = l[i+len("refraction-networking/conjure/"):]
-				} else if i := strings.Index(l, "github.com/pion/"); i >= 0 && strings.Contains(report, "pkg/dtls") {
+				} else if i := strings.Index(l, "github.com/"); i >= 0 {
 					frame = l[i+len("github.com/"):]
 				}
 				if j := strings.LastIndex(frame, "("); j > 0 {
 					frame = frame[:j]
 				}
+				break
 			}
+			// follow "created by … in goroutine N" up to a goroutine that tells the side
+			cur := b
+			for hop := 0; hop < 6 && side == "unknown"; hop++ {
+				switch {
+				case strings.Contains(cur, "(*Listener).acceptLoop"), strings.Contains(cur, "(*Listener).Accept"):
+					side = "listener"
+				case strings.Contains(cur, "DialWithContext"), strings.Contains(cur, "zz_verif"):
+					side = "client"
+				}
+				i := strings.LastIndex(cur, " in goroutine ")
+				if side != "unknown" || i < 0 {
+					break
+				}
+				id := strings.Fields(cur[i+len(" in goroutine "):])[0]
+				next := ""
+				for _, b2 := range blocks {
+					if strings.HasPrefix(strings.TrimLeft(b2, "\n"), "goroutine "+id+" ") {
+						next = b2
+					}
+				}
+				if next == "" {
+					break
+				}
+				cur = next
+			}
+			_ = bi
+			break
 		}
 		cls := "panic"
 		switch {
@@ -358,15 +483,32 @@ func TestVerifC11DTLS(t *testing.T) {
 		case strings.Contains(msg, "deadlock"):
 			cls = "deadlock"
 		}
+		entry := "dtls-listener"
+		if side == "client" {
+			entry = "dtls-harness-client"
+		}
 		where := fmt.Sprintf("during the damaged handshakes (rounds up to %d were running)", last)
 		replay := "dtls|" + strconv.Itoa(max(0, last-16))
 		if mitmDone {
-			where = fmt.Sprintf("after stray datagram %d", lastRaw)
+			where = fmt.Sprintf("while it dealt with stray datagrams (number %d was the last one sent; the replay holds the last %d)", lastRaw, len(recent))
+			replay = "dtlsraw|" + strings.Join(recent, ",")
 		}
-		out.OracleFail("C11:dtls-listener:"+cls+"@"+frame, "the process died "+where+": "+msg+"\n"+report[:min(len(report), 1500)], replay)
-		if mitmDone || last+1 >= rounds {
+		if len(report) > 1800 {
+			report = report[:1800]
+		}
+		out.OracleFail("C11:"+entry+":"+cls+"@"+frame, "the process died "+where+"; side: "+side+"; "+msg+" ⏎ "+strings.ReplaceAll(strings.ReplaceAll(report, "\t", " "), "\n", " ⏎ "), replay)
+		out.Count("dtls:child-died")
+		if rawFile != "" {
 			return
+		}
+		if mitmDone || last+1 >= rounds {
+			start, rawStart = rounds, lastRaw+1
+			if rawStart >= raws {
+				return
+			}
+			continue
 		}
 		start = last + 1
 	}
+	out.Note("DTLS listener: the child process died 12 times; the remaining datagrams were not offered")
 }
